@@ -11,7 +11,7 @@ use proptest::sample::select;
 
 pub struct C12;
 
-const MAX_RESULT_BITS: u64 = 1 << 17;
+const MAX_RESULT_BITS: u64 = 1 << 18;
 
 /// reference power: plain repeated multiplication for small exponents, otherwise an independent
 /// left-to-right binary method (the library uses right-to-left with a square-only prefix)
